@@ -24,7 +24,7 @@ RUNMOD = "RunC13"
 LEVEL = "proof"
 RULE = ("widths 0,1,2,3 included; pow family: (base, exp) with base^exp just below / at / above 2^BITS "
         "(bases 0,1,2,3,10,2^k,2^k+-1,MAX,random; exp = floor(BITS/log2 base)+{-1,0,1,2}, 0, 1, random up to "
-        "full width); log family: value = base^k+{-1,0,1} for bases 2,3,10,small,large,MAX, value 0,1,MAX, "
+        "full width; for BITS>=65 multi-limb exponents hi*2^64k+lo with lo in {0,1,2,3,small,random} against bases 2, 2^k, odd, even); log family: value = base^k+{-1,0,1} for bases 2,3,10,small,large,MAX, value 0,1,MAX, "
         "base 0,1,2,>value,=value; root: degree 0..BITS+2 and 2^64-1, value = r^degree+{-1,0,1}, 0,1,MAX,"
         "random; every observed floating-point estimate is checked against log_est_ok/root_guess_ok (wfb); "
         "non-trivial = BITS>0 and some operand not 0/1; distinct = distinct case lines")
@@ -139,6 +139,21 @@ def pow_cases(rng, bits, reps):
         big = C.rand_value(rng, bits) if bits <= 66 else rng.getrandbits(64)
         emit(rng.choice([0, 1 % m if m > 1 else 0, m - 1, 2, C.rand_value(rng, bits)]), big,
              [rng.choice(POW_FNS), rng.choice(POW_FNS)])
+    # multi-limb exponents with structured limbs (high limb(s) set, low limb 0/1/small/random) against
+    # power-of-two, odd and even bases: an exponent narrowed to a machine word, a skipped zero limb or a
+    # shift-based shortcut for 2^k bases shows only here (seeded change c13_E)
+    if bits >= 65 and (bits <= 512 or rng.random() < 0.3):
+        for _ in range(max(3, reps // 2)):
+            nl = rng.choice([2, 2, 3]) if bits > 128 else 2
+            lo = rng.choice([0, 1, 2, 3, rng.randrange(0, 70), rng.getrandbits(64)])
+            hi = rng.choice([1, 1, 2, rng.getrandbits(rng.randrange(1, 64)) | 1])
+            e = ((hi << (64 * (nl - 1))) | lo) % m
+            if e < (1 << 64):
+                e = (1 << 64) | lo
+            kk = rng.randrange(1, min(bits, 64))
+            r = C.rand_value(rng, bits)
+            for a in (2, 1 << kk, rng.choice([3, (1 << kk) + 1, m - 1, r | 1, r & ~1])):
+                emit(a, e, [rng.choice(["pow", "wrapping_pow"]), rng.choice(POW_FNS)])
     # one full-width exponent per width (the loop runs BITS rounds)
     if bits <= 130 or rng.random() < 0.15:
         emit(C.rand_value(rng, bits) | 1, C.rand_value(rng, bits) | (m >> 1), [rng.choice(POW_FNS)])
